@@ -90,6 +90,7 @@ pub struct Shared {
     pub child_deallocs: AtomicUsize,
     pub child_exec_attempts: AtomicUsize,
     pub child_panics: AtomicUsize,
+    pub child_escapes: AtomicUsize,
     pub plan_fired: [AtomicU32; 32],
     pub bt_n: AtomicUsize,
     pub bt: UnsafeCell<[[usize; BT_DEPTH]; BT_SLOTS]>,
@@ -179,8 +180,21 @@ pub fn subject<T>(f: impl FnOnce() -> T) -> T {
     let prev = is_subject();
     set_subject(true);
     let r = f();
+    if IN_CHILD.load(SeqCst) {
+        // a child forked by the library came back into the caller's code instead of becoming the program or
+        // exiting: it must not go on as a second copy of this worker
+        if let Some(s) = shared() {
+            s.child_escapes.fetch_add(1, SeqCst);
+        }
+        unsafe { libc::syscall(libc::SYS_exit_group, 102) };
+    }
     set_subject(prev);
     r
+}
+
+/// Number of forked children that returned into the caller's code in this case.
+pub fn child_escapes() -> usize {
+    shared().map(|s| s.child_escapes.load(SeqCst)).unwrap_or(0)
 }
 
 /// Run `f` unmonitored (harness' own work) even if the thread is a subject.
@@ -200,6 +214,7 @@ pub fn reset() {
         s.child_deallocs.store(0, SeqCst);
         s.child_exec_attempts.store(0, SeqCst);
         s.child_panics.store(0, SeqCst);
+        s.child_escapes.store(0, SeqCst);
         s.bt_n.store(0, SeqCst);
         for f in s.plan_fired.iter() {
             f.store(0, SeqCst);
